@@ -170,6 +170,168 @@ def sval(s):
     return Rat.var(s) if isinstance(s, str) else s
 
 
+GUARD_DTYPES = ('float16', 'float32', 'float64', 'longdouble', 'complex64',
+                'complex128', 'clongdouble', 'int32', 'int64', 'uint8',
+                'bool')
+BLAS_OK = ('float32', 'float64', 'complex64', 'complex128')
+
+
+class HugeNA(NA):
+    """An array whose reported size exceeds the int32 range."""
+
+
+def guard_rules(rep, model):
+    """R1c: `_blas_is_applicable` interpreted on arrays with real NumPy
+    dtypes (incl. half / extended precision), layouts and a size beyond
+    int32: True only where the typed BLAS kernels can act in place."""
+    fn = model.ctx.func(NPY, '_blas_is_applicable')
+    if fn is None:
+        raise AnalysisError('anchor vanished: _blas_is_applicable')
+    cons = '_blas_is_applicable[numpy dtypes]'
+
+    class GH(LH):
+        def on_name(self, interp, name):
+            if name == '_BLAS_DTYPES':
+                return NotImplemented      # the module's own tuple
+            return LH.on_name(self, interp, name)
+
+        def on_getattr(self, interp, obj, name):
+            if isinstance(obj, HugeNA) and name == 'size':
+                return 2 ** 31 + 5
+            return LH.on_getattr(self, interp, obj, name)
+
+    def arr(dt, lay, huge=False):
+        shape = (2, 3)
+        if lay == 'C':
+            a = _np.empty(shape, dtype=object, order='C')
+        elif lay == 'F':
+            a = _np.empty(shape, dtype=object, order='F')
+        elif lay == 'CF':
+            a = _np.empty((6,), dtype=object)
+        else:
+            a = _np.empty((2, 6), dtype=object)[:, ::2]
+        a[...] = Rat.const(1)
+        return (HugeNA if huge else NA)(a, dt)
+    H = GH('large')
+    I = LI(model, {}, H)
+    env = I.env_of(NPY)
+    # the module-level dtype whitelist, evaluated from its own definition
+    tree = model.ctx.tree(NPY)
+    for st in tree.body:
+        if isinstance(st, ast.Assign) and any(
+                isinstance(t, ast.Name) and t.id == '_BLAS_DTYPES'
+                for t in st.targets):
+            from ..symex import _Scope
+            env['_BLAS_DTYPES'] = I.ev(st.value, _Scope(env), None)
+    n = 0
+    bad = []
+    try:
+        for d1 in GUARD_DTYPES:
+            for d2 in GUARD_DTYPES:
+                for l1, l2 in (('C', 'C'), ('F', 'F'), ('C', 'F'),
+                               ('CF', 'CF'), ('C', 'strided'),
+                               ('strided', 'strided'), ('CF', 'C')):
+                    for huge in (False, True):
+                        if huge and (d1 != d2 or l1 != l2):
+                            continue
+                        n += 1
+                        a, b = arr(d1, l1, huge), arr(d2, l2)
+                        got = I.truth_value(I.call_func(
+                            Func(fn, env, None), [a, b], {}), None)
+                        uniform = (all(x.a.flags.c_contiguous
+                                       for x in (a, b)) or
+                                   all(x.a.flags.f_contiguous
+                                       for x in (a, b)))
+                        want = (d1 == d2 and d1 in BLAS_OK and uniform
+                                and not huge)
+                        if got and not want:
+                            bad.append((d1, l1, d2, l2, 'huge' if huge
+                                        else 'small'))
+    except Undecided as e:
+        rep.undecided('R1c', cons, str(e), NPY, fn.lineno)
+        return
+    if bad:
+        rep.violation('R1c', cons, 'returns True for %d of %d array pairs, '
+                      'first (dtype, layout, dtype, layout, size) = %r: the '
+                      'BLAS arm hands ravelled views to the typed s/d/c/z '
+                      'kernels, which needs equal single or double '
+                      'precision float / complex dtypes, uniform contiguity '
+                      'and int32 sizes -- otherwise scipy converts copies '
+                      'and the output is never written'
+                      % (len(bad), n, bad[0]), NPY, fn.lineno)
+    else:
+        rep.holds('R1c', cons, 'True only for equal s/d/c/z dtypes, '
+                  'uniformly contiguous, int32-sized (%d array pairs over '
+                  '%d NumPy dtypes)' % (n, len(GUARD_DTYPES)))
+    rep.floor('R1c', 'guard evaluations', n, 500)
+
+
+def pointwise_rules(rep, model):
+    """R4L: NumpyTensorSpace._multiply / _divide evaluated on arrays with
+    real layouts, every aliasing pattern, the output holding arbitrary
+    symbols."""
+    n = 0
+    for meth, op in (('_multiply', ast.Mult), ('_divide', ast.Div)):
+        fn = model.ctx.method(NPY, 'NumpyTensorSpace', meth)
+        if fn is None:
+            raise AnalysisError('anchor vanished: NumpyTensorSpace.' + meth)
+        for lay in LAYOUTS:
+            for alias in ALIAS:
+                l1, l2, lo = lay
+                if alias in ('out is x1', 'out is x1 is x2') and l1 != lo:
+                    continue
+                if alias in ('out is x2', 'out is x1 is x2') and l2 != lo:
+                    continue
+                if alias in ('x1 is x2', 'out is x1 is x2') and l1 != l2:
+                    continue
+                n += 1
+                cons = 'NumpyTensorSpace.%s[%s,layouts x1/x2/out=%s]' % (
+                    meth, alias, '/'.join(lay))
+                H = LH('small')
+                I = LI(model, {}, H)
+                x1 = Elem(layout_array('x', l1))
+                x2 = x1 if alias in ('x1 is x2', 'out is x1 is x2') else \
+                    Elem(layout_array('y', l2))
+                if alias in ('out is x1', 'out is x1 is x2'):
+                    out = x1
+                elif alias == 'out is x2':
+                    out = x2
+                else:
+                    out = Elem(layout_array('o', lo))
+                old1, old2 = x1.data.a.copy(), x2.data.a.copy()
+                try:
+                    I.call_func(Func(fn, I.env_of(NPY), None),
+                                [None, x1, x2, out], {})
+                except PyRaise as e:
+                    rep.violation('R4L', cons, 'raises %s' % e.name, NPY,
+                                  fn.lineno)
+                    continue
+                except Undecided as e:
+                    rep.undecided('R4L', cons, str(e), NPY, fn.lineno)
+                    continue
+                msg = None
+                for idx in _np.ndindex(2, 3):
+                    a, b = to_rat(old1[idx]), to_rat(old2[idx])
+                    w = a * b if op is ast.Mult else a / b
+                    g = out.data.a[idx]
+                    if g is None or not (to_rat(g) - w).is_zero():
+                        msg = 'out%r = %r, expected %r' % (idx, g, w)
+                        break
+                for nm, el, old in (('x1', x1, old1), ('x2', x2, old2)):
+                    if el is out or msg:
+                        continue
+                    for idx in _np.ndindex(2, 3):
+                        if not (to_rat(el.data.a[idx]) - to_rat(
+                                old[idx])).is_zero():
+                            msg = 'operand %s is modified' % nm
+                if msg:
+                    rep.violation('R4L', cons, msg, NPY, fn.lineno)
+                else:
+                    rep.holds('R4L', cons, 'entrywise result, operands '
+                              'untouched, nothing of the old output')
+    rep.floor('R4L', 'pointwise evaluations', n, 40)
+
+
 def layout_rules(rep, model, thorough):
     fn = model.ctx.func(NPY, '_lincomb_impl')
     if fn is None:
